@@ -119,20 +119,28 @@ func (i *interpreter) indexString(x, idx value) value {
 	return strAt(x, int(asInt64(idx)))
 }
 
-// concIntBounded concretizes a length-like value, refusing absurd fan-out.
+// concIntBounded concretizes a length-like value. Values in [0,MaxSymLen]
+// are enumerated by forking; negative values are represented by one witness
+// (the caller panics on them); larger values are cut to (MaxSymLen, 2^16] and
+// represented by one witness, which is recorded as a cut.
 func (i *interpreter) concIntBounded(x value, what string) int64 {
-	if s, ok := x.(sym); ok {
-		c := i.path.tc
-		t := i.asInt64Term(s)
-		lim := uint64(i.exp.cfg.MaxSymLen)
-		small := c.and(c.cmp(opSle, c.bv(0, 64), t), c.cmp(opSle, t, c.bv(lim, 64)))
-		if !i.path.branch(small) {
-			// negative or huge: let the caller's checks see one representative
-			v := i.path.eval(t)
-			i.path.assume(c.eq(t, c.bv(v, 64)))
-			i.exp.noteCut(fmt.Sprintf("%s: symbolic size outside [0,%d] represented by one value", what, lim))
-			return int64(v)
-		}
+	s, ok := x.(sym)
+	if !ok {
+		return asInt64(x)
 	}
-	return i.concInt(x)
+	p := i.path
+	c := p.tc
+	t := i.asInt64Term(s)
+	if p.branch(c.cmp(opSlt, t, c.bv(0, 64))) {
+		return sext64(p.eval(t), 64)
+	}
+	lim := uint64(i.exp.cfg.MaxSymLen)
+	if p.branch(c.cmp(opSle, t, c.bv(lim, 64))) {
+		return int64(p.concretize(t))
+	}
+	p.assume(c.cmp(opSle, t, c.bv(1<<16, 64)))
+	v := p.eval(t)
+	p.assume(c.eq(t, c.bv(v, 64)))
+	i.exp.noteCut(fmt.Sprintf("%s: symbolic size in (%d, 65536] represented by one value; larger sizes not explored", what, lim))
+	return int64(v)
 }
